@@ -1,0 +1,14 @@
+//go:build verif
+
+package discovery
+
+// Read-only wrappers for the conformance harness (build tag verif only).
+
+func VerifEncode(t uint8, tg []byte, peers []uint16) []byte {
+	return encodeTagAndMembershipList(msgType(t), tag(tg), peers)
+}
+
+func VerifDecode(msg []byte) (uint8, []byte, []uint16, error) {
+	t, tg, peers, err := decodeTagAndMembershipList(msg)
+	return uint8(t), []byte(tg), peers, err
+}
